@@ -8,6 +8,7 @@ use crate::runner::Tier;
 pub fn main(args: &[String]) -> i32 {
     match args.first().map(|s| s.as_str()) {
         Some("iso") => iso_selftest(args.get(1).and_then(|s| s.parse().ok()).unwrap_or(20_000)),
+        Some("partition") => partition_selftest(),
         Some("probes") => probes_selftest(args.get(1).map(|s| s.as_str()).unwrap_or(""), args.get(2).map(|s| s.as_str()).unwrap_or("")),
         _ => {
             eprintln!("usage: ohsim selftest iso [n] | probes <ID> <evidence part file>");
@@ -120,6 +121,46 @@ fn probes_selftest(id: &str, part: &str) -> i32 {
         }
     }
     println!("selftest probes: {} {} required probes, {} stuck at zero", id, req.len(), bad);
+    if bad > 0 {
+        2
+    } else {
+        0
+    }
+}
+
+/// `same_partition` against the quadratic definition
+fn partition_selftest() -> i32 {
+    let mut bad = 0;
+    for i in 0..200_000u64 {
+        let mut r = Rng::new(crate::rng::mix(0xFA57, i));
+        let n = r.range(0, 9);
+        let kx = r.range(1, 4);
+        let ky = r.range(1, 4);
+        let x: Vec<usize> = (0..n).map(|_| r.below(kx)).collect();
+        let y: Vec<usize> = if r.chance(1, 2) {
+            // a relabelling of x (same partition)
+            let p = r.perm(kx);
+            x.iter().map(|c| p[*c]).collect()
+        } else {
+            (0..n).map(|_| r.below(ky)).collect()
+        };
+        let want = (0..n).all(|a| (0..n).all(|b| (x[a] == x[b]) == (y[a] == y[b])));
+        match crate::plain::same_partition(&x, &y) {
+            Ok(()) => {
+                if !want {
+                    bad += 1;
+                    eprintln!("partition selftest: reported equal: {:?} {:?}", x, y);
+                }
+            }
+            Err((a, b, tx)) => {
+                if want || (x[a] == x[b]) != tx || (y[a] == y[b]) == tx {
+                    bad += 1;
+                    eprintln!("partition selftest: bad witness ({}, {}, {}) for {:?} {:?}", a, b, tx, x, y);
+                }
+            }
+        }
+    }
+    println!("partition selftest: 200000 cases, {} disagreements", bad);
     if bad > 0 {
         2
     } else {
